@@ -242,7 +242,10 @@ def verify_unit(repo, registry, contract, variant=None, timeout_ms=20000, canari
                 cres["killed"] = True
                 cres["by"] = "OUTSIDE-SUBSET %s" % e
             except ExtractError as e:
+                # the mutation's text pattern does not occur in this version of the function: the canary says nothing
+                # about this source (it is a guard for the contracts on the tree they were written for)
                 cres["error"] = str(e)
+                cres["skipped"] = True
             except (CheckerError, Exception) as e:
                 cres["error"] = "%s: %s" % (type(e).__name__, e)
             res["canaries"].append(cres)
